@@ -447,7 +447,7 @@ func (r *Rule) transformArg(arg types.MatchData, argIdx int, cache map[transform
 				argVariable:       arg.Variable(),
 				transformationsID: r.transformationPrefixIDs[i],
 			}
-			if cached, ok := cache[key]; ok {
+			if cached, ok := cache[key]; ok && cached.input == arg.Value() {
 				if i == len(r.transformationPrefixIDs)-1 {
 					// Full chain cached — nothing more to compute
 					return cached.arg, cached.errs
@@ -475,7 +475,7 @@ func (r *Rule) transformArg(arg types.MatchData, argIdx int, cache map[transform
 				argVariable:       arg.Variable(),
 				transformationsID: r.transformationPrefixIDs[i],
 			}
-			cache[key] = transformationValue{arg: value, errs: errs}
+			cache[key] = transformationValue{input: arg.Value(), arg: value, errs: errs}
 		}
 
 		return value, errs
